@@ -21,8 +21,10 @@ type siteReason struct {
 	reason         string
 }
 
+var reasonUsed = map[int]bool{}
+
 func lookupReason(table []siteReason, fn, kind, expr string) (string, bool) {
-	for _, r := range table {
+	for i, r := range table {
 		if r.kind != kind {
 			continue
 		}
@@ -32,6 +34,7 @@ func lookupReason(table []siteReason, fn, kind, expr string) (string, bool) {
 		if r.expr != "" && !strings.HasPrefix(expr, r.expr) {
 			continue
 		}
+		reasonUsed[i] = true
 		return r.reason, true
 	}
 	return "", false
@@ -189,6 +192,16 @@ func checkC10(c *Ctx) {
 		}
 	}
 	c.extra["sites_total"] = total
+	var stale []string
+	for i, r := range c10Reasons {
+		if !reasonUsed[i] {
+			stale = append(stale, r.fn+" | "+r.kind+" | "+r.expr)
+		}
+	}
+	c.extra["stale_reason_entries"] = stale
+	if len(stale) > 0 {
+		c.Note("%d reason-table entries match no site any more (stale, not a failure): %s", len(stale), strings.Join(stale, "; "))
+	}
 }
 
 // dischargeAssert: the asserted value was loaded from a sync.Map (or received
